@@ -24,10 +24,15 @@ def run(rep, tier, seed):
     obs = core.pmap(fileexec.exec_roundtrip, [(n, c, seed) for n, c in enumerate(cases)], chunksize=10)
     for n, (c, o) in enumerate(zip(cases, obs)):
         rep.nontriv([c, n % len(fileexec.specials())])
-    if tier == "thorough":          # one large payload per text format
-        big = [{"fam": "roundtrip", "fmt": f, "n": 3, "built": "pq", "src": "path", "kind": k} for f, k in (("tum", "traj"), ("kitti", "path"))]
-        cases += big
-        obs += [fileexec.exec_roundtrip((10 ** 4 + i, c, seed)) for i, c in enumerate(big)]
+    # long payloads (files of 1.5 .. 20 MB): readers / writers must not switch to a lossy path for large files
+    sizes = [8000] if tier == "quick" else [8000, 30000, 100000]
+    big = [{"fam": "roundtrip", "fmt": f, "n": n, "built": b, "src": src, "kind": k}
+           for n in sizes for f, k, b in (("tum", "traj", "pq"), ("kitti", "path", "se3")) for src in (("path",) if tier == "quick" else ("path", "handle"))]
+    big += [{"fam": "roundtrip", "fmt": "res_traj", "n": sizes[0], "built": "pq", "src": "path", "kind": "traj"},
+            {"fam": "roundtrip", "fmt": "df", "n": sizes[0], "built": "pq", "src": "path", "kind": "traj"}]
+    cases += big
+    obs += core.pmap(fileexec.exec_roundtrip, [(10 ** 4 + i, c, seed) for i, c in enumerate(big)], chunksize=1)
+    rep.extra["long_payload_poses"] = sizes
 
     def probes(traces):
         g = next(t for t in traces if t["o"]["out"] == "ok")
@@ -45,7 +50,7 @@ def run(rep, tier, seed):
                 "poses x storage mode x path/handle x trajectory/path); each shape is instantiated %d times with rotating adversarial float64 "
                 "payloads in every slot (stamps incl. 0.0,1.0,2.0 and sub-nanosecond values), written and re-read by evo, and every slot is "
                 "compared by bit pattern; unicode info strings; bag stamps within 1 ns by exact rational arithmetic" % inst)
-    rep.assumptions = ["float64 values are sampled (35 adversarial representatives), not all 2^64 patterns; 1e5-pose payloads not covered"]
+    rep.assumptions = ["float64 values are sampled (35 adversarial representatives), not all 2^64 patterns"]
 
 
 def selftest(rep):
